@@ -131,16 +131,18 @@ func curParams() params.YouParams { return params.Versions[params.YouV5] }
 // sim is one simulation: the builder node, the recorded history and the simulator's own
 // ledgers.
 type sim struct {
-	r   *kit.Run
-	c   *kit.Chooser
-	sc  scale
-	act *actors
-	gen *core.Genesis
-	b   *chainkit.Builder
+	r     *kit.Run
+	c     *kit.Chooser
+	sc    scale
+	act   *actors
+	gen   *core.Genesis
+	b     *chainkit.Builder
+	mainB *chainkit.Builder // the main builder (s.b is swapped to the second builder while a fork is generated)
 
 	blocks      []*types.Block
 	crits       []string
 	dead        bool // a node died in logging.Crit: stop generating
+	stopRun     bool // an oracle ended the run (what follows would depend on map iteration order)
 	reportTaint bool // C06: report executions that hit a state database error (see taintCheck)
 
 	panicked  *kit.BubblePanic // a panic of the code under test inside a stimulus (re-raised after clean-up)
@@ -219,7 +221,7 @@ func runSim(r *kit.Run, body func(s *sim)) {
 		if err != nil {
 			panic("stakechainworld: builder: " + err.Error())
 		}
-		s.b = b
+		s.b, s.mainB = b, b
 		kit.Wait()
 		defer func() {
 			b.Stop(kit.Wait)
